@@ -37,15 +37,31 @@ def canRead (fs : FS) (p : Str) : Bool :=
 
 /-- how `wcoll_ctx_read_stream` cuts a stream into "lines" -/
 inductive LineMode where
-  /-- the code as it is: `fgets` with a buffer of `size` bytes returns at most `size-1` bytes -/
+  /-- the code as it was: `fgets` with a buffer of `size` bytes returns at most `size-1` bytes, and every
+  piece was parsed on its own -/
   | fgets (size : Nat)
-  /-- the repaired reader: whole lines of any length -/
+  /-- whole lines of any length (the specification's reader) -/
   | whole
+  /-- the repaired reader AS WRITTEN, byte level: `fgets` pieces of at most `size-1` bytes are appended to
+  `line` (`xstrcat`) until a piece holds a newline; what is left at EOF is a last line -/
+  | glued (size : Nat)
   deriving Repr, DecidableEq
 
+/-- the longest line the reader hands over in one piece (`none`: no limit) -/
 def LineMode.cap : LineMode → Option Nat
   | .fgets size => some (size - 1)
   | .whole => none
+  | .glued _ => none
+
+/-- what one `fgets` call returns at most -/
+def LineMode.pieceCap : LineMode → Option Nat
+  | .fgets size => some (size - 1)
+  | .whole => none
+  | .glued size => some (size - 1)
+
+def LineMode.glues : LineMode → Bool
+  | .glued _ => true
+  | _ => false
 
 /-- `used` bytes of the current chunk are in `acc` (reversed) -/
 def chunksGo (cap : Option Nat) : Str → Nat → Str → List Str
@@ -55,11 +71,21 @@ def chunksGo (cap : Option Nat) : Str → Nat → Str → List Str
     else if cap = some (used + 1) then (c :: acc).reverse :: chunksGo cap r 0 []
     else chunksGo cap r (used + 1) (c :: acc)
 
-/-- the successive results of `fgets` until EOF -/
-def chunks (mode : LineMode) (s : Str) : List Str := chunksGo mode.cap s 0 []
+/-- `xstrcat (&line, buf); if (strchr (buf, '\n') == NULL) continue; read_line (line); line = NULL` over the
+successive `fgets` pieces, and `if (line != NULL) read_line (line)` at EOF; `line` = what has been collected -/
+def glueGo : List Str → Str → List Str
+  | [], line => if line.isEmpty then [] else [line]
+  | p :: ps, line => if '\n' ∈ p then (line ++ p) :: glueGo ps [] else glueGo ps (line ++ p)
 
-/-- the unchanged code -/
+/-- the successive arguments of `wcoll_ctx_read_line` until EOF -/
+def chunks (mode : LineMode) (s : Str) : List Str :=
+  if mode.glues then glueGo (chunksGo mode.pieceCap s 0 []) [] else chunksGo mode.cap s 0 []
+
+/-- the code as it was found -/
 def shipped : LineMode := .fgets PdshVerif.Gen.WCOLL_LINEBUFSIZE
+
+/-- the code as repaired (D12): pieces of the same buffer size, glued -/
+def repairedReader : LineMode := .glued PdshVerif.Gen.WCOLL_LINEBUFSIZE
 
 /-! ## `xstrcln (line, NULL)` : SPACES = "\n\t " -/
 
